@@ -177,6 +177,7 @@ func (q *Query) keySort(key string) (string, bool) {
 	}
 	if s, ok := globalHeapSort[key]; ok {
 		q.heapSort[key] = s
+		q.u.ensureSorts(s)
 		return s, true
 	}
 	return "", false
